@@ -32,7 +32,6 @@ import (
 	"encoding/base32"
 	"encoding/json"
 	"errors"
-	"fmt"
 	"hash"
 	"net"
 	"os"
@@ -164,7 +163,11 @@ func loadTicketStore(stateDir string) (*ssTicketStore, error) {
 
 	encMap := make(map[string]*ssTicketJSON)
 	if err = json.Unmarshal(f, &encMap); err != nil {
-		return nil, fmt.Errorf("failed to load ticket store '%s': %w", fPath, err)
+		// Tickets are merely an optimization, so a corrupted ticket store
+		// (eg: truncated by a crash while it was being written) is not
+		// fatal.  Start with an empty store, it will be overwritten when
+		// the next ticket is received.
+		return s, nil
 	}
 	for k, v := range encMap {
 		raw, err := base32.StdEncoding.DecodeString(v.KeyTicket)
